@@ -416,6 +416,84 @@ def ex6 : MatrixModel :=
     A := { start := [0, 4], index := [1, 2, 3, 5, 1, 2, 3, 5], value := [1, 1, 1, 1, 1, -1, -1, 1] },
     ws := [], dws := [], sufs := [], colNames := none, rowNames := none, objName := "obj[1]" }
 
+
+/-! ## 9. Statement audit (round 4): guards of the real code, error branch, instances of the hypotheses
+
+The model is total (`getD` with defaults, truncated subtraction in the row walk) where the C++ reads arrays without a test
+and would loop forever on decreasing row starts.  `WF` states the caller contract the real code relies on; the theorems
+below show that under `WF` no default is ever used, so the theorems of §§1–6 are not true "for the wrong reason". -/
+
+/-- under the caller contract every array read of the Hessian walk (`FillNonlinearVars`, `FillObjNonzeros`,
+`FeedObjExpression`, `ComputeObjValue`) is in range: the `getD` defaults of `qCol` / `qVal` are never used -/
+theorem C08_reads_in_range (m : MatrixModel) (h : WF m) (e : Nat × Nat) (he : e ∈ qEntries m) :
+    e.1 < m.n ∧ e.2 < m.Q.index.length ∧ e.2 < m.Q.value.length ∧ qCol m e.2 < m.n ∧
+    m.Q.index[e.2]? = some (qCol m e.2) := by
+  have h1 : e.1 < m.n := qEntries_row_lt m e he
+  have h2 : e.2 < m.Q.index.length := by
+    unfold qEntries at he
+    split at he
+    · cases he
+    · exact walkDesc_pos_lt _ _ h.q_start_le _ _ (Nat.le_refl _) e he
+  refine ⟨h1, h2, by rw [h.q_val_len]; exact h2, qCol_lt m h.q_idx (by omega) _, ?_⟩
+  unfold qCol
+  rw [getD_eq_getElem' _ _ h2, List.getElem?_eq_getElem h2]
+
+/-- bounds without defaults: whatever the caller stored for column `j` is what is written at position `vperm j` -/
+theorem C08_bounds_follow_exact (m : MatrixModel) (j : Nat) (hj : j < m.n) (l u : Bnd)
+    (hl : m.lb[j]? = some l) (hu : m.ub[j]? = some u) :
+    (feedVarBounds m)[vperm m j]? = some (l, u) := by
+  have h := C08_bounds_follow m j hj
+  have hlen : vperm m j < (feedVarBounds m).length := by simp [feedVarBounds]; exact vperm_lt m hj
+  rw [List.getD_eq_getElem?_getD, List.getElem?_eq_getElem hlen] at h
+  rw [List.getElem?_eq_getElem hlen]
+  simp only [Option.getD_some] at h
+  rw [h, List.getD_eq_getElem?_getD, List.getD_eq_getElem?_getD, hl, hu]
+  rfl
+
+/-- ERROR BRANCH of the solution side: a suffix with an out-of-range index is never delivered, nor anything after it;
+everything delivered has only in-range indices and is the un-permuted dense vector of its own entries -/
+theorem C08_solution_suffixes_in_range (pd : Pd) (n mrows : Nat) (l : List (String × Nat × List (Nat × Rat)))
+    (s : String × Nat × List Rat) (hs : s ∈ readSolSuffixes pd n mrows l) :
+    ∃ t ∈ l, t.1 = s.1 ∧ t.2.1 = s.2.1 ∧ solSuffixOk n mrows t.2.1 t.2.2 = true ∧
+      s.2.2 = onSuffixPd pd n mrows t.2.1 t.2.2 := by
+  unfold readSolSuffixes at hs
+  rw [List.mem_map] at hs
+  obtain ⟨t, ht, rfl⟩ := hs
+  exact ⟨t, (List.takeWhile_sublist _).subset ht, rfl, rfl,
+    mem_takeWhile_true (p := fun s : String × Nat × List (Nat × Rat) => solSuffixOk n mrows s.2.1 s.2.2) ht, rfl⟩
+
+/-- and if the first suffix of the file is bad nothing is delivered -/
+theorem C08_bad_first_suffix (pd : Pd) (n mrows : Nat) (t : String × Nat × List (Nat × Rat))
+    (rest : List (String × Nat × List (Nat × Rat))) (hbad : solSuffixOk n mrows t.2.1 t.2.2 = false) :
+    readSolSuffixes pd n mrows (t :: rest) = [] ∧ solReadError n mrows (t :: rest) = true := by
+  constructor
+  · simp [readSolSuffixes, hbad]
+  · simp [solReadError, hbad]
+
+/-! ### Instances: the hypotheses used above are met by non-trivial models -/
+
+/-- the library's 6-variable MIQP meets the whole caller contract -/
+example : WF ex6 := by
+  constructor <;> first | decide | (intro t ht; cases ht; decide) | (intro c hc; cases hc; decide)
+
+example : (∀ c ∈ ex6.A.index, c < ex6.n) ∧ 0 < ex6.n ∧ ex6.Q.nnz = 3 ∧ ex6.A.nnz = 8 := by decide
+example : cxTypes.n = 2 ∧ (∀ c ∈ cxTypes.Q.index, c < cxTypes.n) ∧ (∀ s ∈ cxTypes.Q.start, s ≤ cxTypes.Q.nnz) ∧ ¬ cxTypes.Q.index.Nodup := by decide
+/-- `C08_suffix_follow`, direction ⇐: a nonzero value of a (double, variable) suffix is written at `vperm j` -/
+example : (vperm ex6 1, (5 : Rat)) ∈ (feedSuffix ex6 ⟨"priority", 4, [0, 5, 0, 0, 0, 0]⟩).entries :=
+  (C08_suffix_follow ex6 ⟨"priority", 4, [0, 5, 0, 0, 0, 0]⟩ (by decide) _).mpr ⟨1, 5, by decide, by decide, by simp⟩
+/-- direction ⇒: every written entry comes from a nonzero value -/
+example (e : Nat × Rat) (h : e ∈ (feedSuffix ex6 ⟨"priority", 4, [0, 5, 0, 0, 0, 0]⟩).entries) :
+    ∃ j v, ([0, 5, 0, 0, 0, 0] : List Rat)[j]? = some v ∧ v ≠ 0 ∧ e.1 = vperm ex6 j := by
+  obtain ⟨j, v, h1, h2, h3⟩ := (C08_suffix_follow ex6 ⟨"priority", 4, [0, 5, 0, 0, 0, 0]⟩ (by decide) e).mp h
+  exact ⟨j, v, h1, h2, by rw [h3]⟩
+/-- a history of three models of different sizes: the state is that of the last one -/
+example : runHistory ⟨[7, 7, 7, 7, 7, 7, 7], []⟩ [ex6, cxTypes, ex6, cxTypes] = pdOf cxTypes :=
+  C08_history_last _ [ex6, cxTypes, ex6] cxTypes
+/-- error branch instance: second suffix of the file has index 6 for 6 columns -/
+example : solSuffixOk 6 2 0 [(6, 1)] = false ∧ solSuffixOk 6 2 0 [(5, 1)] = true := by decide
+
+
+
 example : ex6.Q.index.Nodup ∧ (∀ c ∈ ex6.Q.index, c < ex6.n) ∧ (∀ s ∈ ex6.Q.start, s ≤ ex6.Q.nnz) := by decide
 example : (header ex6 true 1).nlvo = 3 ∧ (header ex6 true 1).nlvoi = 1 ∧ (header ex6 true 1).nbv = 1 ∧ (header ex6 true 1).niv = 1 := by decide
 example : readable ex6 = true := C08_readable ex6
